@@ -106,6 +106,17 @@ fn main() {
     match args[0].as_str() {
         "compile-one" => compile_one(),
         "run" => run(&args[1..]),
+        "run-src" => {
+            // each input line: {"src": "<penne source>"}; output: the result record of run_source
+            let lines = read_lines(&args[1]);
+            let results = par_map(&lines, |i, line| {
+                let v: Value = serde_json::from_str(line).expect("json");
+                let mut r = run_source(v["src"].as_str().unwrap_or(""));
+                r["i"] = json!(i);
+                r.to_string()
+            });
+            write_lines(&args[2], &results);
+        }
         "gen" => {
             if args.len() < 4 {
                 usage();
